@@ -54,6 +54,7 @@ pub fn check_cmd(args: &[String]) -> i32 {
         "C03" => c03(&a),
         "C04" => c04(&a),
         "C07" => c07(&a),
+        "C08" => c08(&a),
         "C10" => c10(&a),
         "C13" => c13(&a),
         "C15" => c15(&a),
@@ -399,4 +400,352 @@ fn c03(a: &Args) -> Report {
         known: vec![],
         machinery_errors: machinery,
     }
+}
+
+pub fn sched_probe() -> i32 {
+    use crate::engines::sched::{self, COp, SchedSpec};
+    for mode in [IoMode::Inplace, IoMode::Background] {
+        for lock_points in [false, true] {
+            let mut spec = SchedSpec::new("probe", mode, vec![], vec![vec![COp::w(0, 10), COp::R(0)], vec![COp::w(0, 11), COp::D { k: 0, ts: 12 }]]);
+            spec.lock_points = lock_points;
+            spec.bound = 2;
+            let t0 = Instant::now();
+            let r = sched::explore(&spec);
+            println!("{mode:?} lock_points={lock_points}: {:?} in {:.1}s", r.stats, t0.elapsed().as_secs_f64());
+            for v in r.violations.iter().take(2) {
+                println!("  VIOL sched={:?} {:?}", v.schedule, v.findings);
+            }
+        }
+    }
+    0
+}
+
+// ---------------------------------------------------------------------------------------------
+// sched-based properties
+// ---------------------------------------------------------------------------------------------
+
+use crate::engines::sched::{self, COp, SchedResult, SchedSpec};
+
+fn run_sched_specs(specs: &[SchedSpec], threads: usize) -> Vec<SchedResult> {
+    use std::sync::atomic::{AtomicUsize, Ordering};
+    use std::sync::Mutex;
+    let next = AtomicUsize::new(0);
+    let results: Mutex<Vec<(usize, SchedResult)>> = Mutex::new(Vec::new());
+    std::thread::scope(|sc| {
+        for _ in 0..threads.max(1) {
+            sc.spawn(|| loop {
+                let i = next.fetch_add(1, Ordering::Relaxed);
+                if i >= specs.len() {
+                    break;
+                }
+                let r = sched::explore(&specs[i]);
+                results.lock().unwrap().push((i, r));
+            });
+        }
+    });
+    let mut v = results.into_inner().unwrap();
+    v.sort_by_key(|x| x.0);
+    v.into_iter().map(|x| x.1).collect()
+}
+
+fn sched_report(prop: &str, a: &Args, results: Vec<SchedResult>, rule: &str, known: &dyn Fn(&sched::SchedViolation) -> Option<(String, String)>) -> Report {
+    let mut violations = Vec::new();
+    let mut machinery = Vec::new();
+    let mut known_hits: Vec<(String, String)> = Vec::new();
+    let mut executions = 0;
+    let mut decisions = 0;
+    let mut distinct = 0;
+    let mut all_completed = true;
+    let mut instances = Vec::new();
+    let mut samples = Vec::new();
+    for r in &results {
+        executions += r.stats.executions;
+        decisions += r.stats.max_decisions;
+        distinct += r.stats.distinct_outcomes;
+        if !r.stats.bound_completed {
+            all_completed = false;
+        }
+        instances.push(json!(r.stats));
+        if samples.len() < 3 && !r.stats.sample_schedule.is_empty() {
+            samples.push(json!({"instance": r.stats.spec, "schedule_choices": r.stats.sample_schedule}));
+        }
+        for v in &r.violations {
+            if v.findings.iter().any(|f| f.kind == "machinery") {
+                machinery.push(format!("{}: {:?}", v.spec.name, v.findings));
+                continue;
+            }
+            if let Some((k, what)) = known(v) {
+                if !known_hits.iter().any(|x| x.0 == k) {
+                    known_hits.push((k, what));
+                }
+                continue;
+            }
+            let desc = format!("[{}] schedule {:?} ({} preemptions) :: {}", v.spec.name, v.schedule, v.preemptions, v.findings[0].detail);
+            violations.push((json!({"engine": "sched", "spec": v.spec, "schedule": v.schedule, "preemptions": v.preemptions, "findings": v.findings}), desc));
+        }
+    }
+    violations.truncate(10);
+    Report {
+        property: prop.into(),
+        tier: a.tier.clone(),
+        seed: a.seed,
+        level: "model_checking".into(),
+        coverage: json!({
+            "states": decisions.max(1),
+            "transitions": executions,
+            "traces_validated_against_impl": executions,
+            "evaluations": executions,
+            "distinct_nontrivial": distinct,
+            "rule": rule,
+            "samples": samples,
+            "exhaustive": all_completed,
+            "instances": instances,
+        }),
+        assumptions: vec![
+            "scheduling points: lock acquisitions, channel sends, file operations (in place) or detached I/O jobs (background), task wake-ups; sections between them are atomic".into(),
+            "preemption-bounded: all schedules with at most the stated number of preemptions per instance".into(),
+        ],
+        wall_s: 0.0,
+        violations,
+        known: known_hits,
+        machinery_errors: machinery,
+    }
+}
+
+const SCHED_RULE: &str = "stateless DFS over schedules of the real storage under the token-passing controller, iterated preemption bound; states = scheduling decision points of the longest run per instance (summed), transitions = complete executions; distinct_nontrivial = distinct (results, final state) vectors summed over instances";
+
+fn client_seqs() -> Vec<Vec<COp>> {
+    // timestamps are filled in per instance
+    vec![
+        vec![COp::w(0, 0), COp::R(0)],
+        vec![COp::w(0, 0), COp::w(0, 0)],
+        vec![COp::w(0, 0), COp::D { k: 0, ts: 0 }],
+        vec![COp::D { k: 0, ts: 0 }, COp::R(0)],
+        vec![COp::R(0), COp::RA(0)],
+        vec![COp::C(0), COp::R(0)],
+        vec![COp::w(1, 0), COp::w(0, 0)],
+        vec![COp::D { k: 0, ts: 0 }, COp::w(0, 0)],
+    ]
+}
+
+fn stamp_ts(clients: &mut [Vec<COp>]) {
+    for (ci, ops) in clients.iter_mut().enumerate() {
+        for (oi, op) in ops.iter_mut().enumerate() {
+            let t = 10 + 3 * ci as u64 + oi as u64;
+            match op {
+                COp::W { ts, .. } | COp::D { ts, .. } => *ts = t,
+                _ => {}
+            }
+        }
+    }
+}
+
+fn c08_instances(thorough: bool) -> Vec<SchedSpec> {
+    let mut specs = Vec::new();
+    let prefixes: Vec<(&str, Vec<Op>, u64)> = vec![
+        ("fresh", vec![], 1_000_000),
+        ("append", vec![Op::w(0, 1), Op::Rot, Op::w(1, 5), Op::Rst], 1_000_000),
+        ("nearfull", vec![Op::w(1, 1)], 2),
+    ];
+    let seqs = client_seqs();
+    for (pname, prefix, max_data) in &prefixes {
+        for mode in [IoMode::Inplace, IoMode::Background] {
+            // 2 clients x 2 operations: every unordered pair with at least one mutator
+            for i in 0..seqs.len() {
+                for j in i..seqs.len() {
+                    let mutates = |s: &Vec<COp>| s.iter().any(|o| matches!(o, COp::W { .. } | COp::D { .. }));
+                    if !mutates(&seqs[i]) && !mutates(&seqs[j]) {
+                        continue;
+                    }
+                    let mut clients = vec![seqs[i].clone(), seqs[j].clone()];
+                    stamp_ts(&mut clients);
+                    let name = format!(
+                        "C08/{pname}/{mode:?}/{}|{}",
+                        clients[0].iter().map(|o| o.short()).collect::<Vec<_>>().join(";"),
+                        clients[1].iter().map(|o| o.short()).collect::<Vec<_>>().join(";")
+                    );
+                    let mut s = SchedSpec::new(&name, mode, prefix.clone(), clients);
+                    s.wcfg.max_data_in_blob = *max_data;
+                    s.bound = if thorough { 3 } else { 2 };
+                    s.max_execs = if thorough { 60_000 } else { 4_000 };
+                    specs.push(s);
+                }
+            }
+            // 3 clients x 1 operation
+            let singles = [COp::w(0, 0), COp::R(0), COp::D { k: 0, ts: 0 }, COp::RA(0), COp::w(1, 0)];
+            for a in 0..singles.len() {
+                for b in a..singles.len() {
+                    for c in b..singles.len() {
+                        let ops = [&singles[a], &singles[b], &singles[c]];
+                        let muts = ops.iter().filter(|o| matches!(o, COp::W { .. } | COp::D { .. })).count();
+                        if muts < 2 {
+                            continue;
+                        }
+                        let mut clients: Vec<Vec<COp>> = ops.iter().map(|o| vec![(*o).clone()]).collect();
+                        stamp_ts(&mut clients);
+                        let name = format!(
+                            "C08/{pname}/{mode:?}/{}",
+                            clients.iter().map(|c| c[0].short()).collect::<Vec<_>>().join("|")
+                        );
+                        let mut s = SchedSpec::new(&name, mode, prefix.clone(), clients);
+                        s.wcfg.max_data_in_blob = *max_data;
+                        s.bound = if thorough { 3 } else { 2 };
+                        s.max_execs = if thorough { 60_000 } else { 4_000 };
+                        specs.push(s);
+                    }
+                }
+            }
+        }
+    }
+    // duplicates disallowed: concurrent identical writes
+    for mode in [IoMode::Inplace, IoMode::Background] {
+        let mut clients = vec![vec![COp::w(0, 10)], vec![COp::w(0, 11)]];
+        let mut s = SchedSpec::new(&format!("C08/nodup/{mode:?}/W|W"), mode, vec![], std::mem::take(&mut clients));
+        s.wcfg.allow_duplicates = false;
+        s.bound = if thorough { 3 } else { 2 };
+        specs.push(s);
+    }
+    // back-pressure: channel capacity 1 and 2, capacity + 2 writers on an over-full blob
+    for cap in [1usize, 2] {
+        for mode in [IoMode::Inplace, IoMode::Background] {
+            let clients: Vec<Vec<COp>> = (0..cap + 2).map(|i| vec![COp::w(0, 10 + i as u64)]).collect();
+            let mut s = SchedSpec::new(&format!("C08/backpressure/cap{cap}/{mode:?}"), mode, vec![Op::w(1, 1)], clients);
+            s.wcfg.max_data_in_blob = 1;
+            s.channel_capacity = Some(cap);
+            s.bound = if thorough { 3 } else { 2 };
+            s.max_execs = if thorough { 100_000 } else { 20_000 };
+            specs.push(s);
+        }
+    }
+    specs
+}
+
+fn known_file() -> Vec<evidence::KnownFinding> {
+    evidence::load_known(&evidence::verif_root().join("known_findings.json"))
+}
+
+/// Two granularities per instance: fine (lock, send, I/O and read points) at a lower bound,
+/// coarse (send and write/job points only) at a higher one.
+fn granularities(specs: Vec<SchedSpec>, thorough: bool) -> Vec<SchedSpec> {
+    let mut out = Vec::new();
+    for s in specs {
+        let special = s.name.contains("backpressure") || s.name.contains("nodup");
+        let mut fine = s.clone();
+        fine.name = format!("{}/fine", s.name);
+        fine.bound = if thorough { 2 } else { 1 };
+        fine.max_execs = if thorough { 40_000 } else if special { 6_000 } else { 700 };
+        if special {
+            fine.bound += 1;
+        }
+        out.push(fine);
+        let mut coarse = s.clone();
+        coarse.name = format!("{}/coarse", s.name);
+        coarse.lock_points = false;
+        coarse.read_points = false;
+        coarse.bound = if thorough { 3 } else { 2 };
+        coarse.max_execs = if thorough { 40_000 } else { 900 };
+        out.push(coarse);
+    }
+    out
+}
+
+fn c08(a: &Args) -> Report {
+    let specs = granularities(c08_instances(a.tier == "thorough"), a.tier == "thorough");
+    let results = run_sched_specs(&specs, a.threads);
+    let known = known_file();
+    sched_report("C08", a, results, SCHED_RULE, &|v| {
+        if v.findings.iter().all(|f| f.kind == "dup_check_race") && evidence::is_open(&known, "C08", "dup-check-race") {
+            Some((
+                "dup-check-race".to_string(),
+                format!("duplicates disallowed: two overlapping writes of one key are both stored ({}, schedule {:?})", v.spec.name, v.schedule),
+            ))
+        } else {
+            None
+        }
+    })
+}
+
+pub fn sched_debug(name: &str) -> i32 {
+    let specs = c08_instances(false);
+    let spec = match specs.iter().find(|s| s.name == name) {
+        Some(s) => s.clone(),
+        None => {
+            eprintln!("no such instance");
+            return 2;
+        }
+    };
+    // run default, then re-run each one-deviation prefix twice and compare traces
+    let (t0, _, _) = sched::run_once(&spec, &[]);
+    println!("default: {} decisions, end {:?}", t0.decisions.len(), t0.end);
+    let mut stack: Vec<Vec<usize>> = vec![vec![]];
+    let mut n = 0;
+    while let Some(prefix) = stack.pop() {
+        let (a, _, _) = sched::run_once(&spec, &prefix);
+        let (b, _, _) = sched::run_once(&spec, &prefix);
+        n += 1;
+        let ea: Vec<_> = a.decisions.iter().map(|d| (d.enabled.clone(), d.chosen)).collect();
+        let eb: Vec<_> = b.decisions.iter().map(|d| (d.enabled.clone(), d.chosen)).collect();
+        if ea != eb || a.end != b.end {
+            println!("NONDETERMINISM at prefix {:?} (run {n})", prefix);
+            for i in 0..ea.len().max(eb.len()) {
+                if ea.get(i) != eb.get(i) {
+                    println!("  first difference at decision {i}:\n   A {:?}\n   B {:?}", ea.get(i), eb.get(i));
+                    if i > 0 { println!("   prev {:?}", ea.get(i-1)); }
+                    break;
+                }
+            }
+            println!("  ends {:?} / {:?}", a.end, b.end);
+            return 1;
+        }
+        if prefix.len() < 1 {
+            for (i, d) in a.decisions.iter().enumerate() {
+                for alt in 0..d.enabled.len() {
+                    if alt != d.chosen {
+                        let mut p: Vec<usize> = a.decisions[..i].iter().map(|d| d.chosen).collect();
+                        p.push(alt);
+                        stack.push(p);
+                    }
+                }
+            }
+        }
+    }
+    println!("no nondeterminism in {n} prefixes");
+    let r = sched::explore(&spec);
+    println!("{:?}", r.stats);
+    for v in &r.violations {
+        println!("VIOL schedule {:?}: {:?}", v.schedule, v.findings);
+        // replay the schedule's own prefix again and compare
+        let (a, _, _) = sched::run_once(&spec, &v.schedule);
+        println!(" replay of that schedule: end {:?}, decisions {}", a.end, a.decisions.len());
+        let parent: Vec<usize> = v.schedule[..v.schedule.len().saturating_sub(1)].to_vec();
+        let (b, _, _) = sched::run_once(&spec, &parent);
+        println!(" parent run: end {:?}, decisions {}; decision at {}: {:?}", b.end, b.decisions.len(), parent.len(), b.decisions.get(parent.len()).map(|d| &d.enabled));
+        let (c, _, _) = sched::run_once(&spec, &parent);
+        println!(" parent again: decision at {}: {:?}", parent.len(), c.decisions.get(parent.len()).map(|d| &d.enabled));
+        for _ in 0..50 {
+            let (d, _, _) = sched::run_once(&spec, &parent);
+            if d.steps_log != c.steps_log {
+                for i in 0..d.steps_log.len().max(c.steps_log.len()) {
+                    if d.steps_log.get(i) != c.steps_log.get(i) {
+                        for j in i.saturating_sub(4)..i { println!("   = {}", c.steps_log[j]); }
+                        println!("   C {:?}\n   D {:?}", c.steps_log.get(i), d.steps_log.get(i));
+                        break;
+                    }
+                }
+                return 1;
+            }
+        }
+    }
+    0
+}
+
+pub fn sched_trace(name: &str) -> i32 {
+    let specs = c08_instances(false);
+    let spec = specs.iter().find(|s| s.name == name).expect("instance").clone();
+    let (t, p, o) = sched::run_once(&spec, &[]);
+    for l in t.steps_log.iter().rev().take(14).rev() {
+        println!("{l}");
+    }
+    println!("end {:?} panics {:?} findings {:?}", t.end, p, o.findings);
+    0
 }
